@@ -371,6 +371,8 @@ template<class V> void check_memory(Rep& R, unsigned seed, size_t nrand) {
     using T = typename V::scalar_value_type; constexpr size_t N = V::Size;
     auto P = pool<T>::get(); Rng rng(seed * 13 + 7);
     static Buf<T> src, dst;
+    struct sigaction sa0, old0; std::memset(&sa0, 0, sizeof sa0); sa0.sa_handler = guard_handler; sigemptyset(&sa0.sa_mask); sa0.sa_flags = SA_NODEFER;
+    sigaction(SIGSEGV, &sa0, &old0); sigaction(SIGBUS, &sa0, nullptr);
     constexpr size_t TOT = Buf<T>::PAD * 2 + 64;
     auto fill_src = [&](size_t k) { for (size_t i = 0; i < TOT; ++i) src.raw[i] = P[(k * 3 + i * 5) % P.size()]; };
     auto fill_dst = [&]() { for (size_t i = 0; i < TOT; ++i) dst.raw[i] = canary<T>(i); };
@@ -381,6 +383,7 @@ template<class V> void check_memory(Rep& R, unsigned seed, size_t nrand) {
     for (int form = 0; form < 5; ++form) {
         static const char* names[] = {"load_aligned", "load_unaligned", "aligned_load", "ctor_ptr_aligned", "ctor_ptr_unaligned"};
         R.begin(names[form]);
+        if (sigsetjmp(guard_env(), 1) == 0) {
         bool al = (form == 0 || form == 2 || form == 3);
         for (size_t k = 0; k < 12; ++k) { fill_src(k);
             for (size_t off = 0; off < (al ? 2 : 5); ++off) {
@@ -389,11 +392,13 @@ template<class V> void check_memory(Rep& R, unsigned seed, size_t nrand) {
                 if (form == 0) { V v; v.load(p, true); un(v, got); } else if (form == 1) { V v; v.load(p, false); un(v, got); }
                 else if (form == 2) { V v; do_aligned_load(v, p); un(v, got); } else if (form == 3) { V v(p, true); un(v, got); } else { V v(p, false); un(v, got); }
                 for (size_t i = 0; i < N; ++i) { ++R.n; if (!same(got[i], p[i])) { R.fail("offset=" + std::to_string(o) + " lane=" + std::to_string(i) + " mem=" + hexv(p, N) + " got=" + hexv(got, N)); break; } } } }
+        } else R.fail("fault (SIGSEGV) inside this operation (e.g. an aligned-access instruction on an unaligned address, or an access outside the vector)");
         R.end();
     }
     for (int form = 0; form < 3; ++form) {
         static const char* names[] = {"store_aligned", "store_unaligned", "aligned_store"};
         R.begin(names[form]);
+        if (sigsetjmp(guard_env(), 1) == 0) {
         bool al = form != 1;
         for (size_t k = 0; k < 12; ++k) { fill_src(k); V v = mk<V>(src.at(0));
             for (size_t off = 0; off < (al ? 2 : 5); ++off) {
@@ -403,6 +408,7 @@ template<class V> void check_memory(Rep& R, unsigned seed, size_t nrand) {
                 std::string why;
                 for (size_t i = 0; i < N; ++i) { ++R.n; if (!same(p[i], src.at(0)[i])) { R.fail("offset=" + std::to_string(o) + " lane=" + std::to_string(i) + " want=" + hexv(src.at(0), N) + " mem=" + hexv(p, N)); break; } }
                 if (!canaries_ok(o, why)) R.fail(why); } }
+        } else R.fail("fault (SIGSEGV) inside this operation (e.g. an aligned-access instruction on an unaligned address, or an access outside the vector)");
         R.end();
     }
     // masks: bit j of the mask enables lane j.  All masks when N <= 8, otherwise walking / boundary / seeded masks.
@@ -414,6 +420,7 @@ template<class V> void check_memory(Rep& R, unsigned seed, size_t nrand) {
     for (int al = 0; al < 2; ++al) {
         R.begin(al ? "mask_store_aligned" : "mask_store_unaligned");
         size_t k = 0;
+        if (sigsetjmp(guard_env(), 1) == 0) {
         for (uint32_t m : masks) { fill_src(k++); V v = mk<V>(src.at(0)); fill_dst();
             size_t o = al ? 0 : (k % 3); T* p = dst.at(o);
             v.mask_store(p, m, al != 0);
@@ -421,13 +428,16 @@ template<class V> void check_memory(Rep& R, unsigned seed, size_t nrand) {
             for (size_t i = 0; i < N; ++i) { ++R.n; T w = ((m >> i) & 1) ? src.at(0)[i] : canary<T>(Buf<T>::PAD + o + i);
                 if (!same(p[i], w)) { R.fail("mask=0x" + hex((int32_t)m) + " lane=" + std::to_string(i) + (((m >> i) & 1) ? " (enabled)" : " (disabled lane written)") + " vec=" + hexv(src.at(0), N) + " mem=" + hexv(p, N) + " before=" + hex(canary<T>(Buf<T>::PAD + o + i))); break; } }
             if (!canaries_ok(o, why)) R.fail("mask=0x" + hex((int32_t)m) + " " + why); }
+        } else R.fail("fault (SIGSEGV) inside this operation (e.g. an aligned-access instruction on an unaligned address, or an access outside the vector)");
         R.end();
         R.begin(al ? "mask_load_aligned" : "mask_load_unaligned");
+        if (sigsetjmp(guard_env(), 1) == 0) {
         k = 0;
         for (uint32_t m : masks) { fill_src(k++); size_t o = al ? 0 : (k % 3); const T* p = src.at(o);
             V v; v.mask_load(p, m, al != 0); T got[N]; un(v, got);
             for (size_t i = 0; i < N; ++i) { if (!((m >> i) & 1)) continue; ++R.n;
                 if (!same(got[i], p[i])) { R.fail("mask=0x" + hex((int32_t)m) + " lane=" + std::to_string(i) + " mem=" + hexv(p, N) + " got=" + hexv(got, N)); break; } } }
+        } else R.fail("fault (SIGSEGV) inside this operation (e.g. an aligned-access instruction on an unaligned address, or an access outside the vector)");
         R.end();
     }
     // (a fault is caught and reported as a failure of this operation)
@@ -456,6 +466,7 @@ template<class V> void check_memory(Rep& R, unsigned seed, size_t nrand) {
         }
     }
     R.end();
+    sigaction(SIGSEGV, &old0, nullptr); signal(SIGBUS, SIG_DFL);
 }
 
 // ---- reverse, horizontal operations -----------------------------------------------------------------------------------
